@@ -14,7 +14,7 @@ import (
 func init() {
 	register(&Prop{
 		ID:         "C16",
-		Decided:    "(1) the table key encoder is uniquely decodable for composite keys, separates strings from numbers by type tags, and normalises every Go numeric kind to one tag (keyenc); (2) MemoryTableSource.index is accessed only under its RWMutex (writes exclusively), tableStore.sources under its mutex; (3) enrichJoin writes only the fresh working copy (ownmap, shared with C20); (4) the JoinType literals written by parseJoin are exactly the ones enrichJoin distinguishes, the drop return is reachable only on the not-matched, not-LEFT arm, and a matched row is always attached; (4b) the table alias is defaulted to the table name before it is used to strip qualifiers from the ON columns; (5) the lookup key is built from OnPairs in order (StreamField), the same order JoinKeyFields reports for the index (TableField). Also: every use of a table source in package stream (TableSource.Lookup, MemoryTableSource.Upsert/Delete) takes its receiver from tableStore.get in the same activation, never from a field, package variable, atomic box or map that remembers a source across rows (flow/table-source-resolved-per-use).",
+		Decided:    "(1) the table key encoder is uniquely decodable for composite keys, separates strings from numbers by type tags, and normalises every Go numeric kind to one tag (keyenc); (2) MemoryTableSource.index is accessed only under its RWMutex (writes exclusively), tableStore.sources under its mutex; (3) enrichJoin writes only the fresh working copy (ownmap, shared with C20); (4) the JoinType literals written by parseJoin are exactly the ones enrichJoin distinguishes, the drop return is reachable only on the not-matched, not-LEFT arm, and a matched row is always attached; (4b) the table alias is defaulted to the table name before it is used to strip qualifiers from the ON columns; (5) the lookup key is built from OnPairs in order (StreamField), the same order JoinKeyFields reports for the index (TableField). Also: every use of a table source in package stream (TableSource.Lookup, MemoryTableSource.Upsert/Delete) takes its receiver from tableStore.get in the same activation, never from a field, package variable, atomic box or map that remembers a source across rows (flow/table-source-resolved-per-use). Also: in enrichJoin's loop over the JOINs no branch condition and no value written into the working row derives from a value carried over from the previous iteration (flow/join-result-per-iteration): a JOIN whose lookup is skipped cannot re-use the previous table's match.",
 		NotDecided: "read-your-writes across goroutines beyond the lock clause, column projection under aliases, WHERE/GROUP BY over joined columns.",
 		Run:        runC16,
 	})
@@ -166,6 +166,7 @@ func runC16(a *A) {
 	})
 	a.Rule("flow/alias-default-before-use", 1, func() { a.ruleAliasDefaultBeforeUse() })
 	a.Rule("flow/table-source-resolved-per-use", 2, func() { a.ruleTableSourceResolvedPerUse() })
+	a.Rule("flow/join-result-per-iteration", 4, func() { a.ruleJoinResultPerIteration() })
 	a.Rule("shape/key-order", 2, func() {
 		ej := a.Method("stream", "Stream", "enrichJoin")
 		jk := a.Method("stream", "Stream", "JoinKeyFields")
@@ -507,6 +508,70 @@ func (a *A) ruleTableSourceResolvedPerUse() int {
 				"the table source used here is the result of tableStore.get in the same activation",
 				"the table source used here can come from "+strings.Join(bad, "; ")+" instead of tableStore.get: a source remembered across rows keeps answering after the table was registered again under the same name")
 		})
+	}
+	return n
+}
+
+// ruleJoinResultPerIteration: a query may JOIN several tables; enrichJoin resolves them one after
+// the other in a loop. What one iteration looked up (the matched flag, the table row) belongs to that
+// iteration: no branch condition and no value written into the working row inside the loop derives
+// from a value carried over from the previous iteration (a phi at the loop header other than the
+// range index). Otherwise a JOIN whose lookup is skipped (NULL key) re-uses the previous table's
+// match: an INNER JOIN keeps the row and the earlier table's columns appear under the later alias.
+func (a *A) ruleJoinResultPerIteration() int {
+	ej := a.Method("stream", "Stream", "enrichJoin")
+	jcs := a.FieldOf(a.Named("types", "Config"), "JoinConfigs")
+	n := 0
+	for _, l := range rangeLoops(ej) {
+		if l.X == nil {
+			continue
+		}
+		if t := TermOf(l.X, nil); t.Kind != "field" || t.Field != jcs {
+			continue
+		}
+		// the natural loop
+		inLoop := map[*ssa.BasicBlock]bool{}
+		for b := range l.Blocks {
+			if reachesAvoiding(b, l.Header, nil) || b == l.Header {
+				inLoop[b] = true
+			}
+		}
+		isIndexPhi := func(p *ssa.Phi) bool { return isIntType(p.Type()) }
+		for b := range inLoop {
+			for _, in := range b.Instrs {
+				var vals []ssa.Value
+				what := ""
+				switch x := in.(type) {
+				case *ssa.If:
+					vals, what = []ssa.Value{x.Cond}, "a branch condition"
+				case *ssa.MapUpdate:
+					vals, what = []ssa.Value{x.Value}, "a value written into the working row"
+				default:
+					continue
+				}
+				for _, v := range vals {
+					n++
+					phi := carriedBy(v, l.Header)
+					if phi != nil && isIndexPhi(phi) {
+						phi = nil
+					}
+					name := ""
+					if phi != nil {
+						name = phi.Comment
+					}
+					kind := "branch"
+					if _, isMU := in.(*ssa.MapUpdate); isMU {
+						kind = "value"
+					}
+					a.Check(phi == nil, fmt.Sprintf("%s#per-iteration-%s", fname(ej), kind), in.Pos(),
+						what+" of the JOIN loop is computed from this iteration's lookup",
+						what+" of the JOIN loop derives from "+name+", a value carried over from the previous JOIN of the same row: when this JOIN's lookup is skipped (NULL key) the previous table's match decides, and its row is attached under this table's alias")
+				}
+			}
+		}
+	}
+	if n == 0 {
+		a.anchorFail("no loop over Config.JoinConfigs found in enrichJoin")
 	}
 	return n
 }
